@@ -804,6 +804,6 @@ pub fn run(ctx: &mut Ctx) {
     let ctx = &*ctx;
     ctx.cases("plan_and_rewrite", ctx.n(30000, 1000000), 0, plan_case);
     ctx.cases("representative", ctx.n(30000, 1000000), 0, representative_case);
-    ctx.cases("dfs_symmetry_process_models", ctx.n(300, 15000), 0, symmetric_proc_case);
-    ctx.cases("dfs_symmetry_actor_systems", ctx.n(60, 2500), 0, symmetric_actor_case);
+    ctx.cases("dfs_symmetry_process_models", ctx.n(1500, 25000), 0, symmetric_proc_case);
+    ctx.cases("dfs_symmetry_actor_systems", ctx.n(200, 4000), 0, symmetric_actor_case);
 }
